@@ -68,18 +68,39 @@ def run(rep, facts):
     b, g, rows = rows_of(facts, RP + "::parse")
     n = 0
     bad = []
+    n_direct = 0
+    direct_placeholder_ok = False
     for r in rows:
         if r.end != 'return':
             continue
         n += 1
         pc = position_of_call(r, "std::vec::Vec::clear")
         pd = position_of_call(r, "replace_with::replace_with_and_return")
+        direct = False
+        if pd is None:
+            # the same thing without the helper crate: take the state out (leaving the panic placeholder), drive it, store the result
+            pd = position_of_call(r, RS + "::drive")
+            direct = pd is not None
         if pc is None or pd is None or pc > pd:
             bad.append("a return path does not clear the output and then drive the state machine")
             continue
         cl = r.called("std::vec::Vec::clear")
         if not self_field(cl[0][1][0], 'output'):
             bad.append("the cleared buffer is not self.output")
+        if direct:
+            n_direct += 1
+            dc = r.called(RS + "::drive")[0]
+            taken = ir.peel(dc[1][0])
+            if not (taken[0] == 'call' and taken[1].endswith("mem::replace") and self_field(taken[2][0], 'state')):
+                bad.append("the state machine driven is not the one taken out of self.state")
+            else:
+                ph = ir.peel(taken[2][1])
+                if variant_of(ph) == 'Fatal' and variant_of(agg_field(ph, 0)) == 'Paniced':
+                    direct_placeholder_ok = True
+            stw = [ir.peel(val) for (pl, val, nd, s_) in r.writes if pl[0] == 'field' and pl[2] == 'state' and r.nodes.index(nd) >= pd]
+            if not any(any(y[0] == 'call' and y[1] == RS + "::drive" for y in ir.walk(v)) for v in stw):
+                bad.append("the state returned by State::drive is not stored back into self.state")
+            continue
         rw = r.called("replace_with::replace_with_and_return")[0]
         if not self_field(rw[1][0], 'state'):
             bad.append("the state machine driven is not self.state")
@@ -108,8 +129,10 @@ def run(rep, facts):
                 okd = True
             if ret[0] == 'call' and ret[1] == RS + "::drive":
                 oks = True
+    if n_direct and not cl:
+        okd, oks = direct_placeholder_ok, True
     if okd:
-        rep.ok("R3.3", "parse/panic-fallback", "|| State::Fatal(Error::Paniced)", b.loc())
+        rep.ok("R3.3", "parse/panic-fallback", "|| State::Fatal(Error::Paniced)" if cl else "mem::replace(&mut self.state, State::Fatal(Error::Paniced)) before the drive", b.loc())
     else:
         rep.violation("R3.3", "parse/panic-fallback", "the fallback state after a panic is not Fatal(Paniced)", b.loc())
     if oks:
@@ -371,7 +394,16 @@ def _contracts():
         st["regions"] = {}
         return it.opaque()
 
+    def c_state_drive(it, st, args, dty):
+        # request::State::drive(self, data, out, config) -> (rest, state): `rest` is a sub-slice of `data` (its lifetime has no other source)
+        n = it.new_len("rem", st["ctx"])
+        L = it.slice_len(args[1], st["ctx"]) if len(args) > 1 else None
+        if L is not None:
+            st["ctx"].add(L - n)
+        return ('tuple', [('slice', n), it.opaque()])
+
     return {
+        "parser::request::State::drive": c_state_drive,
         SP + "::parse_payload": c_havoc_self,
         SP + "::parse_head": c_havoc_self,
         "std::io::impls::write": c_write,
